@@ -1666,30 +1666,41 @@ impl ExternalSortExec {
         let mut result_batches = Vec::new();
         let mut output_rows: Vec<(usize, usize)> = Vec::new(); // (run_idx, row_idx)
 
-        // Helper to compare rows
+        // Helper to compare rows. Must order rows exactly like `sort_batch`
+        // (which sorted each run): NULL placement comes from `SortExpr::nulls`
+        // and is independent of the sort direction.
         let compare_rows = |batch_a: &RecordBatch,
                             row_a: usize,
                             batch_b: &RecordBatch,
                             row_b: usize,
                             order_by: &[crate::planner::SortExpr]|
-         -> std::cmp::Ordering {
+         -> Result<std::cmp::Ordering> {
             for sort_expr in order_by {
-                let col_a = evaluate_expr(batch_a, &sort_expr.expr).ok();
-                let col_b = evaluate_expr(batch_b, &sort_expr.expr).ok();
+                let a = evaluate_expr(batch_a, &sort_expr.expr)?;
+                let b = evaluate_expr(batch_b, &sort_expr.expr)?;
+                let nulls_first =
+                    matches!(sort_expr.nulls, crate::planner::NullOrdering::NullsFirst);
 
-                if let (Some(a), Some(b)) = (col_a, col_b) {
-                    let cmp = compare_array_values(&a, row_a, &b, row_b);
-                    let cmp = if sort_expr.direction == crate::planner::SortDirection::Desc {
-                        cmp.reverse()
-                    } else {
-                        cmp
-                    };
-                    if cmp != Ordering::Equal {
-                        return cmp;
+                let cmp = match (a.is_null(row_a), b.is_null(row_b)) {
+                    (true, true) => Ordering::Equal,
+                    (true, false) if nulls_first => Ordering::Less,
+                    (true, false) => Ordering::Greater,
+                    (false, true) if nulls_first => Ordering::Greater,
+                    (false, true) => Ordering::Less,
+                    (false, false) => {
+                        let cmp = compare_array_values(&a, row_a, &b, row_b);
+                        if sort_expr.direction == crate::planner::SortDirection::Desc {
+                            cmp.reverse()
+                        } else {
+                            cmp
+                        }
                     }
+                };
+                if cmp != Ordering::Equal {
+                    return Ok(cmp);
                 }
             }
-            Ordering::Equal
+            Ok(Ordering::Equal)
         };
 
         // Simple merge: repeatedly find minimum across all runs
@@ -1709,7 +1720,7 @@ impl ExternalSortExec {
                                     run_buffers[current_min].as_ref().unwrap(),
                                     run_indices[current_min],
                                     &self.order_by,
-                                );
+                                )?;
                                 if cmp == Ordering::Less {
                                     Some(run_idx)
                                 } else {
